@@ -188,6 +188,11 @@ class DTypeV:
     def __init__(self, term):
         self.term = term
 
+    def sx_getattr(self, ex, attr, node):
+        if attr == "names":
+            return None                 # a coefficient dtype is a plain numeric dtype: no fields
+        raise U(f"dtype.{attr}", node)
+
     def sx_compare(self, ex, op, other, node, reflected):
         o = as_dtype(ex, other, node)
         if op == "Eq":
@@ -904,6 +909,12 @@ class Poly:
             return {"OWNDATA": self.owndata}
         return V.BoundMethod(self, attr)
 
+    def sx_len(self, ex):
+        src = getattr(self, "indeterminants_of", None)
+        if src is not None:
+            return src.D                 # poly.indeterminants is the vector of the D indeterminates
+        raise U("len of a polynomial array (first extent is not modelled)")
+
     def sx_iter(self, ex):
         src = getattr(self, "indeterminants_of", None)
         if src is not None and getattr(src, "concrete_names", None) is not None:
@@ -1220,6 +1231,9 @@ def install(reg):
             return a
         if isinstance(a, bool) and not kw:
             return a
+        sv = scalar_of(a)
+        if sv is not None and not isinstance(sv, z3.BoolRef) and not kw and len(args) == 1:
+            return Arr(shp0, lambda i: sv, "real", ex.ctx.const("dt_scalar", DT), Region("fresh"))      # 0-d array of a number
         raise U("numpy.asarray of this value", node)
 
     @ax("numpy.any")
@@ -1254,6 +1268,18 @@ def install(reg):
                     ds.append(as_dtype(ex, a, node))
             return DTypeV(result_type(ds[0], ds[1]))
         raise U("numpy.result_type of these values", node)
+
+    @ax("numpy.where")
+    def where_(ex, args, kw, node):
+        if len(args) == 3 and not kw and isinstance(args[0], Arr) and args[0].kind == "bool" and all(
+                isinstance(a, Arr) or scalar_of(a) is not None for a in args[1:]):
+            c, x, y = args
+            r = elementwise(ex, lambda cc, a, b: z3.If(_bool(cc), _num(a), _num(b)), [c, x, y], "real", node)
+            if isinstance(x, Arr) and isinstance(y, Arr):
+                r.dtype = result_type(x.dtype, y.dtype)
+            r.where_of = (c, x, y)
+            return r
+        raise U("numpy.where in this form", node)
 
     @ax("numpy.outer")
     def outer(ex, args, kw, node):
@@ -1525,6 +1551,8 @@ class SymDict:
             a = Arr(default.shape, lambda i: z3.If(src == -1, dflt(i), vals(src).elem(i)), "real", default.dtype, Region("fresh"))
             a.dict_src = (self, src)
             return a
+        if attr == "items" and not args:
+            return V.Seq(self.n, lambda t: (MonoRow(self.key(t), self.D), self.val(t)), "list")
         raise U(f"dict.{attr} on a symbolic dictionary", node)
 
 
